@@ -287,6 +287,16 @@ def handle (st : St) (cmd : String) (args : List Nat) : St × String :=
     match rdTree.run args with
     | some (t, _) => (st, "eval " ++ (t.eval st.env).show)
     | none => (st, "bad-tree")
+  | "keysok" =>
+    -- is `act_order` a strict total order on this grammar's terminals?
+    let ts := st.gg.terms
+    let n := ts.length
+    let ok := (List.range n).all (fun i => (List.range n).all (fun j =>
+      let a := ts.getD i default
+      let b := ts.getD j default
+      if i == j then !(before Src.sortW1 Src.sortW2 a a)
+      else (before Src.sortW1 Src.sortW2 a b) != (before Src.sortW1 Src.sortW2 b a)))
+    (st, if ok then "keysok 1" else "keysok 0")
   | "firstsets" => (st, "firstsets " ++ natList (firstSets st.gg))
   | "table" =>
     match rdTable.run args with
